@@ -118,6 +118,7 @@ func ruleBurstSampler(r *Run, p *Prog) {
 	if !r.Anchor(f != nil && inc != nil, "BURST", "(*BurstSampler).Sample and inc") {
 		return
 	}
+	f = p.View(f, "keep-inc", func(g *ssa.Function) bool { return g == inc })
 	paths, complete := enumPaths(f, 1, 1000)
 	if !complete {
 		r.Fail("BURST", FnName(f)+"/paths", p.Pos(f.Pos()), "cannot enumerate paths")
